@@ -78,7 +78,7 @@ def segAt (fs : Conc) (f i : Nat) : Option Seg :=
 /-- replace segment `i` of file `f` -/
 def setSegAt (fs : Conc) (f i : Nat) (sg : Seg) : Conc :=
   match fs.files[f]? with
-  | some nf => { fs with files := fs.files.set f (nf.1, { nf.2 with segs := nf.2.segs.set i sg }) }
+  | some nf => setFile fs f { nf.2 with segs := nf.2.segs.set i sg }
   | none => fs
 
 /-! ### Write: C08's `filenode.Write` without `settle`; the flushes it started become groups -/
